@@ -8,6 +8,7 @@ from framework import REPO, ROOT
 TIE = ["Nsq.Tie.AdminAgg"]
 PROPS = ["Nsq.Props.C18"]
 STREAMS = [("getv1", "^TestVerifE7GetV1$"), ("latency", "^TestVerifE7Latency$"), ("less", "^TestVerifE7Less$"),
+           ("add", "^TestVerifE7Add$"),
            ("views", "^TestVerifE7Views$"),
            ("malformed", "^TestVerifE7Malformed$")]
 
@@ -264,8 +265,104 @@ def w64(x):
     return y
 
 
+CS13 = ["depth", "memDepth", "backend", "inflight", "deferred", "requeue", "timeout", "msg", "delivery", "zone", "region",
+        "global", "clientCount"]
+CS8 = [0, 1, 2, 7, 8, 9, 10, 11]     # positions of the topic counters inside the 13-field rendering
+
+
+def add_fails(op, impl):
+    """Stream `add`: the real TopicStats.Add / ChannelStats.Add folded over reports given in the op line; every sum,
+    the or-ed paused flag, the node list, the client multiset and the merged channel list are recomputed here."""
+    t = Toks(op.split()[1:])
+    kind, name = t.next(), t.s()
+
+    def chan():
+        c = {"node": t.s(), "host": t.s(), "topic": t.s(), "name": t.s(), "paused": t.next() == "1", "e2e": t.next() == "1"}
+        c["cnt"] = [t.n() for _ in range(13)]
+        c["clients"] = ["%s~%s~%s" % (t.s() or "-", t.s() or "-", c["node"] or "-") for _ in range(t.n())]
+        return c
+
+    def topic():
+        x = {"node": t.s(), "host": t.s(), "name": t.s(), "paused": t.next() == "1", "e2e": t.next() == "1"}
+        x["cnt"] = [t.n() for _ in range(8)]
+        x["channels"] = [chan() for _ in range(t.n())]
+        return x
+
+    reports = [topic() if kind == "topic" else chan() for _ in range(t.n())]
+    if impl.startswith("panic") or impl.startswith("marshal-error"):
+        return "%s.Add over %d report(s): %s" % ("TopicStats" if kind == "topic" else "ChannelStats", len(reports), impl[:160])
+    a = impl.split(" ", 2)
+    if len(a) < 3 or a[0] != "200":
+        return "unreadable answer %r" % impl[:160]
+    body = a[2]
+
+    def sums(rows, width):
+        return [w64(sum(r[i] for r in rows)) for i in range(width)]
+
+    if kind == "channel":
+        m = re.match(r"C/([^/]*)/([^/]*)/([^/]*)/([-0-9,]+)/([01])/([^/]*)/(.*)$", body)
+        if not m:
+            return "unreadable aggregate %r" % body[:120]
+        got = [int(x) for x in m.group(4).split(",")]
+        want = sums([r["cnt"] for r in reports], 13)
+        if got != want:
+            bad = [CS13[i] for i in range(13) if got[i] != want[i]]
+            return "ChannelStats.Add: fields %s are %s; the sums over the reports are %s" % (
+                bad, [got[CS13.index(b)] for b in bad], [want[CS13.index(b)] for b in bad])
+        if (m.group(5) == "1") != any(r["paused"] for r in reports):
+            return "ChannelStats.Add: paused=%s but the reports say %s" % (m.group(5), [r["paused"] for r in reports])
+        gotc = [] if m.group(6) == "-" else m.group(6).split("+")
+        if sorted(gotc) != sorted(c for r in reports for c in r["clients"]):
+            return "ChannelStats.Add: clients %s; the reports hold %s" % (sorted(gotc), sorted(c for r in reports for c in r["clients"]))
+        nodes = [] if m.group(7) == "-" else m.group(7).split("+")
+        wantn = sorted("%s~%s~%s~%s" % (r["node"] or "-", r["host"] or "-", ",".join(str(x) for x in r["cnt"]), "1" if r["paused"] else "0")
+                       for r in reports)
+        if sorted(nodes) != wantn:
+            return "ChannelStats.Add: the node list is not the list of the reports (%d entries for %d reports)" % (len(nodes), len(reports))
+        if (m.group(2) == "*") != bool(reports):
+            return "ChannelStats.Add: node is %r after %d Add(s)" % (m.group(2), len(reports))
+        return None
+    m = re.match(r"T/[^/]*/([-0-9,]+)/([01]) N\[([^\]]*)\] C\[(.*)\]$", body)
+    if not m:
+        return "unreadable aggregate %r" % body[:120]
+    got = [int(x) for x in m.group(1).split(",")]
+    want = sums([r["cnt"] for r in reports], 8)
+    if [got[i] for i in CS8] != want:
+        return "TopicStats.Add: counters %s; the sums over the reports are %s" % ([got[i] for i in CS8], want)
+    if (m.group(2) == "1") != any(r["paused"] for r in reports):
+        return "TopicStats.Add: paused=%s but the reports say %s" % (m.group(2), [r["paused"] for r in reports])
+    nodes = [] if m.group(3) == "-" else m.group(3).split(";")
+    if len(nodes) != len(reports):
+        return "TopicStats.Add: %d node entries for %d reports" % (len(nodes), len(reports))
+    entries = [] if m.group(4) == "-" else m.group(4).split(";")
+    seen = {}
+    for e in entries:
+        f = e.split("/")
+        seen.setdefault("" if f[0] == "-" else f[0], []).append(f)
+    by_name = {}
+    for r in reports:
+        for c in r["channels"]:
+            by_name.setdefault(c["name"], []).append(c)
+    if sorted(seen) != sorted(by_name) or any(len(v) != 1 for v in seen.values()):
+        return "TopicStats.Add: merged channels %s; the reports hold %s" % (sorted((k, len(v)) for k, v in seen.items()), sorted(by_name))
+    for nme, cs in by_name.items():
+        f = seen[nme][0]
+        if [int(x) for x in f[2].split(",")] != sums([c["cnt"] for c in cs], 13):
+            return "TopicStats.Add: channel %r has %s; the sums over its %d report(s) are %s" % (nme, f[2], len(cs), sums([c["cnt"] for c in cs], 13))
+        if (f[3] == "1") != any(c["paused"] for c in cs):
+            return "TopicStats.Add: channel %r paused=%s" % (nme, f[3])
+        gotc = [] if f[4] == "-" else f[4].split("+")
+        if sorted(gotc) != sorted(k for c in cs for k in c["clients"]):
+            return "TopicStats.Add: channel %r lists clients %s; its reports hold %s" % (nme, sorted(gotc), sorted(k for c in cs for k in c["clients"]))
+        if int(f[5]) != len(cs) - 1:
+            return "TopicStats.Add: channel %r: %s node entries merged into the first report; %d reports exist" % (nme, f[5], len(cs))
+    return None
+
+
 def property_fails_on(op, impl):
     """Evaluate C18 on one case and the implementation's own answer (independent of the Lean model)."""
+    if op.startswith("add "):
+        return add_fails(op, impl)
     if op.startswith("getv1 "):
         # the request helper: a normal answer or the one allowed upgrade succeeds; everything else is ONE failed
         # answer after at most one request per port
@@ -717,7 +814,7 @@ def run(ctx):
             kinds = {}
             for o, i in zip(ops, impl):
                 ctx.count_case(o, nontrivial=(i.startswith("200 ") and not i.endswith(" -")) or o.startswith("getv1")
-                               or o.startswith("lat") or o.startswith("less "))
+                               or o.startswith("lat") or o.startswith("less ") or o.startswith("add "))
                 k = o.split()[1] + ":" + i.split()[0]
                 kinds[k] = kinds.get(k, 0) + 1
             ctx.corr.setdefault("outcomes", {})[name] = kinds
@@ -736,6 +833,8 @@ def run(ctx):
                         key = "view:latency-overflow-500"
                     if o.startswith("less "):
                         key = "order:comparator:" + o.split()[1]
+                    if o.startswith("add "):
+                        key = "add:" + o.split()[1]
                     if o.startswith("lat "):
                         key = "crash:null-percentile" if " panic decode " in " " + i + " " and "nil map" in i else "latency:" + i[:60]
                     if "no producer is known" in bad:
